@@ -121,19 +121,20 @@ type vmArm struct {
 }
 
 type vmModel struct {
-	Func      *ast.FuncDecl
-	FuncName  string
-	Switch    *ast.SwitchStmt
-	Loop      *ast.ForStmt
-	Arms      map[string]*vmArm // by opcode name
-	Unhandled []string          // opcode constants without a case
-	Default   bool
-	Undecided []string
-	Closures  map[string]*ast.FuncLit // by role (readByte, readOp, readU16, readUvarint, readConst, push, pop, peek, set, blockGet, blockSet), else by variable name
-	Roles     map[types.Object]string // closure variable -> role
-	StackSize int64
-	BlockSize int64
-	Recv      types.Object
+	Func        *ast.FuncDecl
+	FuncName    string
+	Switch      *ast.SwitchStmt
+	Loop        *ast.ForStmt
+	Arms        map[string]*vmArm // by opcode name
+	Unhandled   []string          // opcode constants without a case
+	Default     bool
+	Undecided   []string
+	Closures    map[string]*ast.FuncLit // by role (readByte, readOp, readU16, readUvarint, readConst, push, pop, peek, set, blockGet, blockSet), else by variable name
+	Roles       map[types.Object]string // closure variable -> role
+	MethodRoles map[types.Object]string // helper written as a method of the machine -> role
+	StackSize   int64
+	BlockSize   int64
+	Recv        types.Object
 }
 
 // findDispatch locates the function holding `for { ... switch <opcode> ... }`.
@@ -220,6 +221,29 @@ func (c *Ctx) vmModel() (*vmModel, error) {
 			// functions are reported under their role, whatever the variable is called
 			c.litNames[v.Lit] = role
 		}
+	}
+	// helpers written as methods of the machine instead of closures: classified the same way, interpreted in place
+	m.MethodRoles = map[types.Object]string{}
+	for _, it := range c.sortedDecls() {
+		fn, ok := it.obj.(*types.Func)
+		if !ok || it.fd == fd || it.fd.Body == nil || it.fd.Recv == nil {
+			continue
+		}
+		sig := fn.Type().(*types.Signature)
+		if sig.Recv() == nil || !types.Identical(sig.Recv().Type(), c.typeOfRecv(fd)) {
+			continue
+		}
+		lit := &ast.FuncLit{Type: it.fd.Type, Body: it.fd.Body}
+		role := classifyClosure(c, in, st0, lit)
+		if role == "" {
+			continue
+		}
+		if _, taken := m.Closures[role]; taken {
+			continue
+		}
+		m.MethodRoles[fn] = role
+		m.Closures[role] = lit
+		aliasOf[fn] = typeShort(sig.Recv().Type()) + "." + fd.Name.Name + "$" + role
 	}
 	in.Undecided = nil // classification probes are not part of the verdict
 	// statements of the loop body before and after the switch
@@ -690,6 +714,9 @@ func vmHooks(c *Ctx, m *vmModel) Hooks {
 			return one(st, Value{K: vTuple, Tup: []Value{x, linV(n)}}), true
 		}
 		if callee != nil {
+			if _, isMethodHelper := m.MethodRoles[callee]; isMethodHelper {
+				return nil, false // interpreted in place (Inline)
+			}
 			if _, isBuiltin := callee.(*types.Builtin); isBuiltin {
 				if name == "append" && len(call.Args) > 0 {
 					if fp := c.fieldPath(call.Args[0]); strings.HasPrefix(fp, "<vm>.") {
@@ -725,7 +752,19 @@ func vmHooks(c *Ctx, m *vmModel) Hooks {
 		}
 		return nil, false
 	}
+	h.Inline = func(fn *types.Func) bool {
+		_, ok := m.MethodRoles[fn]
+		return ok
+	}
 	return h
+}
+
+// typeOfRecv: the receiver type of a method declaration.
+func (c *Ctx) typeOfRecv(fd *ast.FuncDecl) types.Type {
+	if fd.Recv == nil || len(fd.Recv.List) != 1 {
+		return types.Typ[types.Invalid]
+	}
+	return c.typeOf(fd.Recv.List[0].Type)
 }
 
 func signed(l *Lin) string {
